@@ -36,7 +36,7 @@ var Metas = map[string]*Meta{
 	},
 	"C15": {
 		Level: "exploration",
-		Rule: "A run executes four seeded histories (depth <= 12 quick, <= 60 thorough) of Add / Delete / restart (MarshalJSON -> fresh trie -> UnmarshalJSON, history continues on the rebuilt object) with caller-buffer scribbling after calls and a simulator-chosen child order for ForEach, over a swarm of alphabets (2-6 letters incl. 0x00, 0xFF, '\"') and length bounds; after EVERY step the full observation (Has for every string of the bounded universe, the ForEach multiset, Delete's result) is compared with a reference set model. The first 14 runs are the fixed exhaustive sweep: all 14^4 = 38416 histories of depth 4 over 14 operations on {a,b}. " +
+		Rule: "A run executes four seeded histories (depth <= 12 quick, <= 60 thorough) of Add / Delete / restart (MarshalJSON -> fresh trie -> UnmarshalJSON, history continues on the rebuilt object) with caller-buffer scribbling after calls and a simulator-chosen child order for ForEach, over a swarm of alphabets (2-6 letters incl. 0x00, 0xFF, '\"') and length bounds; after EVERY step the full observation (Has for every string of the bounded universe, the ForEach multiset, Delete's result) is compared with a reference set model. The first runs are the fixed exhaustive sweep: all 14^4 = 38416 histories of depth 4 over 14 operations on {a,b} (thorough: depth 5, 537824 histories, plus all 26^4 = 456976 histories of depth 4 over {a,b,c}). " +
 			"distinct_nontrivial counts distinct abstract states (sets M) reached; evaluations counts histories executed.",
 		Assumptions: []string{
 			"the reference model is a direct transcription of the property's definition of M (about 40 lines, no code shared with the implementation)",
@@ -51,7 +51,7 @@ var Metas = map[string]*Meta{
 	"C16": {
 		Level: "exploration",
 		Rule: "A run builds one index from generated (starts, ends) -- 0-12 intervals incl. start==end, start>end, duplicates, touching, nested, negative and math.MinInt/MaxInt coordinates -- shared by 1-4 simulated callers with up to 8 operations each (At at breakpoints, breakpoint+-1, below min, above max, random; scribbling over a previously returned slice in three modes; re-queries), once interleaved at whole-operation granularity on the real package and twice at statement granularity on the instrumented scratch copy (real goroutines, exactly one runnable, yield before every statement; uniform / sticky / PCT-style choice from the run PRNG); every At answer is compared with a brute-force scan; 6% of cases pile 17-130 intervals on the same few positions (thresholds such as 16/32/64 members). In the instrumented copy package sort is replaced by a version that yields after every element move, because a sort of shared data is not atomic in reality. 3% of cases hand NewIndex unequal lengths and expect the panic. " +
-			"The first 17 runs are the fixed exhaustive sweep: all 69 905 sets of <= 4 intervals over coordinates 0..3, positions -1..4, queried, scribbled, queried again. distinct_nontrivial counts distinct (index, callers' programs, executed schedule) triples; evaluations counts cases executed.",
+			"The first 17 runs are the fixed exhaustive sweep: all 69 905 sets of <= 4 intervals over coordinates 0..3 (thorough: also all 1 048 576 sets of 5), positions -1..4, queried, scribbled, queried again. distinct_nontrivial counts distinct (index, callers' programs, executed schedule) triples; evaluations counts cases executed.",
 		Assumptions: []string{
 			"the brute-force scan {x | starts[x] <= i < ends[x]} ascending is the model; nil and empty results are equal",
 			"the API has no mutating operation, so linearizability degenerates to 'every At in every interleaving equals the model'; porcupine would add nothing",
